@@ -209,7 +209,7 @@ def train_multi_agent_on_policy(
             scores = (
                 np.zeros((num_envs, 1))
                 if sum_scores
-                else np.zeros((num_envs, len(agent_ids)))
+                else np.zeros((num_envs, len(agent.agent_ids)))
             )
             losses = {agent_id: [] for agent_id in agent_ids}
             completed_episode_scores = []
